@@ -786,14 +786,15 @@ Definition named (us : list uev) (grs : list group) : bool :=
          | 2               the task of a waiting async method runs
          | 3               the user receives one event
          | 4 rk wait t     `wait` ticks pass and the refresh future of key rk is taken (id from the shared counter)
+         | 5               the loop ends (its future is dropped): the command channel is closed
    trace = 4 (per op)  call: code q    0 Err, 1 Ok(()), 2 Ok(id q), 3 suspended in send().await
                        poll: ntaken storedump        wake: 0 | 1 code q
-                       recv: 0 | 1 out               fire: q storedump
+                       recv: 0 | 1 out               fire: q storedump       kill: 7
    The node has an empty routing table: every operation ends in the drain that follows its command.
    ================================================================================================ *)
 Definition HANDLE_TAG : N := 1000016.
 
-Inductive hgop := GCall (tr : bool) (b : hbody) | GPoll | GWake | GRecv | GFire (rk wait : N) (t : key).
+Inductive hgop := GCall (tr : bool) (b : hbody) | GPoll | GWake | GRecv | GFire (rk wait : N) (t : key) | GKill.
 Record hcase := mkHC { hc_cap : N; hc_lkey : key; hc_ops : list hgop }.
 
 Definition hq_of (qtag qn : N) : hquorum :=
@@ -825,6 +826,7 @@ Definition p_hgop : parser hgop :=
   | 2 => pret GWake
   | 3 => pret GRecv
   | 4 => let* rk := pN in let* wt := pN in let* t := p_key in pret (GFire rk wt t)
+  | 5 => pret GKill
   | _ => pfail
   end.
 
@@ -912,6 +914,9 @@ Fixpoint hrun_trace (wc : wcfg) (h : hstate) (w : world) (evq : list out) (ops :
           q :: dump_store wc w1 ++ hrun_trace wc h1 w1 (evq ++ filter is_event o) t
       | _ => [8]
       end
+  | GKill :: t =>
+      (* the receiver is gone: what was queued is never taken, a waiting sender is released with an error *)
+      7 :: hrun_trace wc (mkH (h_next h) [] (h_cap h) true None) w evq t
   end.
 
 Definition run_hcase (k : hcase) : list N :=
@@ -921,7 +926,8 @@ Definition run_hcase (k : hcase) : list N :=
 (* ---- the oracle of the handle stream, on the trace alone ---- *)
 (* per op: what the trace says *)
 Inductive hobs :=
-| HOCall (code q : N) | HOPoll (n : N) | HOWake (moved : bool) (code q : N) | HORecv (o : option out) | HOFire (q : N).
+| HOCall (code q : N) | HOPoll (n : N) | HOWake (moved : bool) (code q : N) | HORecv (o : option out) | HOFire (q : N)
+| HOKill.
 
 Definition p_store_dump : parser unit :=
   let* _ := plist p_five in
@@ -942,6 +948,7 @@ Fixpoint p_hobs (ops : list hgop) : parser (list hobs) :=
       if f then let* o := p_out in let* r := p_hobs t in pret (HORecv (Some o) :: r)
       else let* r := p_hobs t in pret (HORecv None :: r)
   | GFire _ _ _ :: t => let* q := pN in let* _ := p_store_dump in let* r := p_hobs t in pret (HOFire q :: r)
+  | GKill :: t => let* _ := pN in let* r := p_hobs t in pret (HOKill :: r)
   end.
 
 (* the ids the user was given (Ok(id), at once or when the waiting method completed) and the ids of refreshes *)
@@ -974,8 +981,10 @@ Definition prop_ok_h (k : hcase) (t : list N) : bool :=
              id a failed try_ method burnt *)
           forallb (fun q => Nat.leb (count_terms q outs) 1) ids &&
           forallb (fun o => match term_of o with Some q => nmem q ids | None => true end) outs &&
-          (* once everything is drained, every operation the user was given an id for has reported *)
-          (if ends_drained obs then forallb (fun q => Nat.eqb (count_terms q outs) 1) ids else true)
+          (* once everything is drained, every operation the user was given an id for has reported — as long
+             as the loop lives: when the node has shut the loop down nothing is owed any more *)
+          (if ends_drained obs && negb (existsb (fun x => match x with HOKill => true | _ => false end) obs)
+           then forallb (fun q => Nat.eqb (count_terms q outs) 1) ids else true)
       | None => false
       end
   | _ => false
